@@ -8,7 +8,7 @@
    use.  Not proved (tested by the oracle, see evidence tested_only): the face/basis counts and
    closedness (each simplex of order k has k+1 faces of order k-1 and a basis of k+1 points). *)
 From Coq Require Import String ZArith Bool Arith List.
-From SV Require Import Names NamesFacts ListFacts Rep Fresh Complex Atomic RepInv Reach Homology Filtration Gen World Small Sweeps Shapes AddEffect.
+From SV Require Import Names NamesFacts ListFacts Rep Fresh Complex Atomic RepInv Reach Homology Filtration Gen World Small Sweeps Shapes AddEffect Closed ClosedReach.
 Import ListNotations.
 
 (* the invariant holds after any sequence of add / relabel / delete requests on the representation,
@@ -102,3 +102,23 @@ Proof.
   split; [exact Hnd|]. split; [exact Ho|]. split; [exact Hf|]. intros s Hs. destruct (Hold s Hs) as (A & _ & B & C). auto.
 Qed.
 Print Assumptions C01_added_simplex_has_exactly_its_faces.
+
+(* EVERY HISTORY OF PUBLIC OPERATIONS (add by faces / by basis, ensureBasis, bulk add, delete, delete
+   by basis, bulk delete, restrict, subdivide, relabel -- accepted or rejected, in any order): the
+   closedness invariant cinv = shapes + "a simplex of order k >= 1 has exactly k+1 faces" holds *)
+Theorem C01_public_histories_are_closed : forall uid ops, cinv (fold_left pstep ops (empty_rep uid)).
+Proof. exact public_history_cinv. Qed.
+Print Assumptions C01_public_histories_are_closed.
+(* ... which says, in the words of the property: the faces of a simplex of order k are distinct,
+   each is a simplex of the complex of order k-1, and there are exactly k+1 of them (none for a point) *)
+Theorem C01_every_simplex_has_its_faces :
+  forall r t k, cinv r -> orderOf r t = Ok k ->
+  NoDup (faces r t) /\
+  (forall u, In u (faces r t) -> containsSimplex r u = true /\ orderOf r u = Ok (k - 1)) /\
+  length (faces r t) = (if Nat.eqb k 0 then 0 else S k).
+Proof. exact faces_of_a_simplex. Qed.
+Print Assumptions C01_every_simplex_has_its_faces.
+(* the invariant survives deletion because deleteSimplex removes cofaces before faces *)
+Theorem C01_delete_keeps_closed : forall r s r' x, cinv r -> deleteSimplex r s = (r', x) -> cinv r'.
+Proof. exact deleteSimplex_cinv. Qed.
+Print Assumptions C01_delete_keeps_closed.
